@@ -315,6 +315,10 @@ where
                 });
             };
             *slot = value;
+            // An update fills a deleted slot, buffered or stored alike.
+            if !self.holes().is_empty() {
+                self.mut_holes().remove(&index);
+            }
             return Ok(());
         }
 
